@@ -1,6 +1,7 @@
 import PlushModel
 import PlushProofs.Lib.LexerLines
 import PlushProofs.Lib.LexerShift
+import PlushProofs.Lib.ParserErrLines
 import PlushProofs.Props.C05
 /-!
   C15 — every template error names the line of the failing tag, invariant under shifting.
@@ -81,5 +82,12 @@ theorem C15_shift_scanner (l l' : LX) (hs : LX.Sim l l') :
     ((LX.nextInsideToken (l'.input.size + 2) l').1.line : Int) - (LX.nextInsideToken (l.input.size + 2) l).1.line
       = (l'.line : Int) - l.line :=
   LX.token_line_shift l l' hs
+
+/-- EVERY SYNTAX ERROR NAMES A LINE, for every source text: each error the parser records carries a line number
+    (the `line N:` prefix). Proved by walking all twenty parse functions with one automated step tactic
+    (`Lib/ParserErrLines.lean`): no path adds an error without a line. -/
+theorem C15_syntax_errors_name_a_line (src : Bytes) (prog : Program) (errs : Array PErr)
+    (h : parseBytes src = .ok (prog, errs)) : ∀ e ∈ errs.toList, e.line.isSome = true :=
+  parse_errors_have_lines src prog errs h
 
 end Plush
